@@ -467,6 +467,7 @@ def run(ctx):
             ctx.count('boundaries_reload.' + name, calib[name][0] if ctx.shard == 0 else 0)
             ctx.count('boundaries_decision.' + name, calib[name][1] if ctx.shard == 0 else 0)
         # ---- P1, P2: every single pre-emption point ----------------------------
+        ctx.reserve(0.42)         # every family keeps a share of the wall budget (matters on a loaded machine only)
         for name in names:
             sc = SCEN[name]
             nX, nY0, _ = calib[name]
@@ -504,8 +505,9 @@ def run(ctx):
         ctx.stratum('P2', exhaustive=done)
         # ---- P6: the decider is inside its FIRST load (never-loaded enforcer) at EVERY boundary when the files change and
         # the other thread loads them completely ------------------------------------------------------------------------
-        done6 = done
-        if done:
+        done6 = True
+        ctx.reserve(0.62)
+        if True:
             for name in names:
                 sc = SCEN[name]
                 nF = first_load_boundaries(name)
@@ -530,8 +532,9 @@ def run(ctx):
                     break
         ctx.stratum('P6', exhaustive=done6)
         # ---- P5: the decider already holds a fetched check; the reload is pre-empted at EVERY boundary ----------------
-        done5 = done
-        if done:
+        done5 = True
+        ctx.reserve(0.76)
+        if True:
             for name in names:
                 sc = SCEN[name]
                 nX, nY0, _ = calib[name]
@@ -561,8 +564,9 @@ def run(ctx):
         # ---- P4 targeted: the decider is stopped at EVERY boundary of its (preloaded) call, the files change, the reloader runs
         # up to each boundary at which anything a concurrent load step can read has just changed, the decider finishes, the
         # reloader finishes - for the directory scenarios, where a load step lists the directory on every call -------------------
-        done4 = done5
-        if done5:
+        done4 = True
+        ctx.reserve(0.9)
+        if True:
             for name in P4_TARGETED:
                 sc = SCEN[name]
                 nX, nY0, _ = calib[name]
@@ -585,6 +589,7 @@ def run(ctx):
                 if not done4:
                     break
         ctx.stratum('P4-targeted', exhaustive=done4)
+        ctx.release()
         # ---- P3, P4: two pre-emptions -------------------------------------------
         rnd = ctx.rnd
         if ctx.tier == 'thorough' and done:
